@@ -1,7 +1,7 @@
 (* C38.  Model of the HTTP/2 response writer of bfe_http2:
      server.go  responseWriter.{Header,WriteHeader,Write,Flush,handlerDone}, responseWriterState.{writeHeader,
                 writeChunk,declareTrailer,promoteUndeclaredTrailers}, cloneHeader, foreachHeaderElement
-     write.go   writeResHeaders.writeFrame (field order; an empty header block writes NO frame), encodeHeaders
+     write.go   writeResHeaders.writeFrame (field order; empty trailers block -> empty DATA with END_STREAM), encodeHeaders
      bufio.Writer (Go 1.23) in front of writeChunk, buffer size handlerChunkWriteSize
      bfe_net/textproto CanonicalMIMEHeaderKey, MIMEHeader.Set/Add/Get/Del
    A handler is a script of operations; the model returns the abstract frames written on the stream
@@ -105,6 +105,9 @@ Definition enc_key (h : hmap) (k : bytes) : list (bytes * bytes) :=
       then [(lk, v)] else []) (hget h k)
   else [].
 Definition encode_headers (h : hmap) (keys : list bytes) : list (bytes * bytes) := flat_map (enc_key h) keys.
+(* ... over the declared trailer keys: keys of HopHeaders are skipped (fix: connection-specific trailers were sent) *)
+Definition encode_trailers (hop : list bytes) (h : hmap) (keys : list bytes) : list (bytes * bytes) :=
+  encode_headers h (filter (fun k => negb (mem_bytes k hop)) keys).
 
 (* ---------- frames ---------- *)
 Inductive frame :=
@@ -183,9 +186,9 @@ Definition first_headers (e : env) (done : bool) (p : bytes) (s : rws) : frame *
   (FH es fields, mkR (hh s) (wroteH s) (status s) snp true tr scl (wroteB s) (buf s) (berr s), es).
 
 (* writeChunk after the HEADERS (non-HEAD; p non-empty or handler done): DATA and, at the end, the trailers.
-   Last component = ghost flag: the trailers HEADERS frame was due but its header block was empty, so nothing was
-   written (writeResHeaders.writeFrame loops `for len(headerBlock) > 0`). *)
-Definition body_frames (done : bool) (p : bytes) (s1 : rws) : list frame * rws * bool :=
+   When no declared trailer has an encodable value the header block is empty and writeResHeaders.writeFrame ends the
+   stream with an empty DATA frame instead (fix: it used to write nothing, so END_STREAM was never sent). *)
+Definition body_frames (e : env) (done : bool) (p : bytes) (s1 : rws) : list frame * rws :=
   let lenp := blen p in
   let '(h2, tr2) := if done then promote (hh s1) (trailers s1) else (hh s1, trailers s1) in
   let s2 := mkR h2 (wroteH s1) (status s1) (snap s1) (sentH s1) tr2 (sentCL s1) (wroteB s1) (buf s1) (berr s1) in
@@ -193,37 +196,36 @@ Definition body_frames (done : bool) (p : bytes) (s1 : rws) : list frame * rws *
   let es := done && negb has_tr in
   let fr2 := if (0 <? lenp) || es then [FD es p] else [] in
   if done && has_tr then
-    match encode_headers h2 tr2 with
-    | [] => (fr2, s2, true)                        (* empty header block: no frame at all *)
-    | fields => (fr2 ++ [FH true fields], s2, false)
+    match encode_trailers (e_hop e) h2 tr2 with
+    | [] => (fr2 ++ [FD true []], s2)
+    | fields => (fr2 ++ [FH true fields], s2)
     end
-  else (fr2, s2, false).
+  else (fr2, s2).
 
-(* writeChunk.  Returns: frames written, n (the int result; the error result is always nil here), new state, and the
-   ghost flag of body_frames. *)
-Definition write_chunk (e : env) (done : bool) (p : bytes) (s0 : rws) : list frame * Z * rws * bool :=
+(* writeChunk.  Returns: frames written, n (the int result; the error result is always nil here), new state. *)
+Definition write_chunk (e : env) (done : bool) (p : bytes) (s0 : rws) : list frame * Z * rws :=
   let s := write_header e 200 s0 in
   let lenp := blen p in
   let '(fr1, s1, ended) :=
     if sentH s then ([], s, false)
     else let '(f, s1, es) := first_headers e done p s in ([f], s1, es) in
-  if ended then (fr1, 0, s1, false)
-  else if e_head e then (fr1, lenp, s1, false)
-  else if (lenp =? 0) && negb done then (fr1, 0, s1, false)
-  else let '(fr2, s2, lost) := body_frames done p s1 in (fr1 ++ fr2, lenp, s2, lost).
+  if ended then (fr1, 0, s1)
+  else if e_head e then (fr1, lenp, s1)
+  else if (lenp =? 0) && negb done then (fr1, 0, s1)
+  else let '(fr2, s2) := body_frames e done p s1 in (fr1 ++ fr2, lenp, s2).
 
 Definition set_buf (s : rws) (b : bytes) (er : bool) : rws :=
   mkR (hh s) (wroteH s) (status s) (snap s) (sentH s) (trailers s) (sentCL s) (wroteB s) b er.
 
 (* bufio.Writer.Flush *)
-Definition bw_flush (e : env) (done : bool) (s : rws) : list frame * rws * bool :=
-  if berr s then ([], s, false)
+Definition bw_flush (e : env) (done : bool) (s : rws) : list frame * rws :=
+  if berr s then ([], s)
   else match buf s with
-       | [] => ([], s, false)
+       | [] => ([], s)
        | _ =>
-         let '(fr, n, s', lost) := write_chunk e done (buf s) s in
-         if n <? blen (buf s) then (fr, set_buf s' (skipn (Z.to_nat n) (buf s)) true, lost)   (* io.ErrShortWrite *)
-         else (fr, set_buf s' [] false, lost)
+         let '(fr, n, s') := write_chunk e done (buf s) s in
+         if n <? blen (buf s) then (fr, set_buf s' (skipn (Z.to_nat n) (buf s)) true)   (* io.ErrShortWrite *)
+         else (fr, set_buf s' [] false)
        end.
 
 (* bufio.Writer.Write; None = fuel exhausted (never happens: see bw_write_fuel in the proofs) *)
@@ -234,10 +236,10 @@ Fixpoint bw_write (fuel : nat) (e : env) (p : bytes) (s : rws) (acc : list frame
     | O => None
     | S f =>
       match buf s with
-      | [] => let '(fr, n, s', _) := write_chunk e false p s in
+      | [] => let '(fr, n, s') := write_chunk e false p s in
               bw_write f e (skipn (Z.to_nat n) p) s' (acc ++ fr)
       | _ => let n := Z.to_nat (e_bsz e - blen (buf s)) in
-             let '(fr, s', _) := bw_flush e false (set_buf s (buf s ++ firstn n p) false) in
+             let '(fr, s') := bw_flush e false (set_buf s (buf s ++ firstn n p) false) in
              bw_write f e (skipn n p) s' (acc ++ fr)
       end
     end
@@ -254,9 +256,9 @@ Definition set_wroteB (s : rws) (n : Z) : rws :=
   mkR (hh s) (wroteH s) (status s) (snap s) (sentH s) (trailers s) (sentCL s) n (buf s) (berr s).
 
 (* responseWriter.Flush (also the last action of handlerDone, with done = true) *)
-Definition do_flush (e : env) (done : bool) (s : rws) : list frame * rws * bool :=
+Definition do_flush (e : env) (done : bool) (s : rws) : list frame * rws :=
   match buf s with
-  | [] => let '(fr, _, s', lost) := write_chunk e done [] s in (fr, s', lost)
+  | [] => let '(fr, _, s') := write_chunk e done [] s in (fr, s')
   | _ => bw_flush e done s
   end.
 
@@ -268,7 +270,7 @@ Definition step (e : env) (o : hop_) (s : rws) : list frame * rws * list Z :=
   | OSet k v => ([], set_hh s (hput (hh s) (canon k) [v]), [])
   | OAdd k v => let k' := canon k in ([], set_hh s (hput (hh s) k' (hget (hh s) k' ++ [v])), [])
   | OWriteHeader c => ([], write_header e c s, [])
-  | OFlush => let '(fr, s', _) := do_flush e false s in (fr, s', [])
+  | OFlush => let '(fr, s') := do_flush e false s in (fr, s', [])
   | OWrite p =>
     let s1 := write_header e 200 s in
     if negb (body_allowed (status s1)) then ([], s1, [1])
@@ -288,13 +290,13 @@ Fixpoint run_ops (e : env) (ops : list hop_) (s : rws) : list frame * rws * list
               let '(fr', s2, res') := run_ops e r s1 in (fr ++ fr', s2, res ++ res')
   end.
 
-(* the whole response: the script, then handlerDone.  Last component: the lost-trailers ghost flag. *)
-Definition run_handler (e : env) (ops : list hop_) : list frame * list Z * rws * bool :=
+(* the whole response: the script, then handlerDone *)
+Definition run_handler (e : env) (ops : list hop_) : list frame * list Z * rws :=
   let '(fr, s, res) := run_ops e ops rws0 in
-  let '(fr', s', lost) := do_flush e true s in
-  (fr ++ fr', res, s', lost).
+  let '(fr', s') := do_flush e true s in
+  (fr ++ fr', res, s').
 
-Definition frames_of (e : env) (ops : list hop_) : list frame := fst (fst (fst (run_handler e ops))).
+Definition frames_of (e : env) (ops : list hop_) : list frame := fst (fst (run_handler e ops)).
 
 (* ---------- specification side (used by prop_C38; written from the statement, not from writeChunk) ---------- *)
 (* RFC 7540 8.1.2.2 connection-specific header fields, lower case *)
